@@ -250,15 +250,16 @@ impl Components {
             let total_use = veclistsum(&used.iter().map(|&v| v.values()).collect::<Vec<_>>());
 
             // Usos no compensados con la producción existente
-            let unbalanced_use = if prod.is_empty() {
+            let net_use = if prod.is_empty() {
                 total_use
             } else {
                 let avail_prod = veclistsum(&prod.iter().map(|&v| v.values()).collect::<Vec<_>>());
                 vecvecdif(&total_use, &avail_prod)
-                    .iter()
-                    .map(|&v| if v > 0.0 { v } else { 0.0 })
-                    .collect()
             };
+            let unbalanced_use: Vec<f32> = net_use
+                .iter()
+                .map(|&v| if v > 0.0 { v } else { 0.0 })
+                .collect();
 
             // Si no hay desequilibrio continuamos
             if unbalanced_use.iter().sum::<f32>() == 0.0 {
